@@ -20,6 +20,17 @@ _C20 = {
 
 CHECKS = {
     "C20": _C20,
+    "C04": {
+        "text": ("SourceSpace.tla spans the front end's input space at token level: TLC enumerates every token sequence up to the bound over the "
+                 "complete token alphabet, the maximal-munch table of every operator-character string, and the static-error table. Those inputs, "
+                 "single-token mutations of valid programs, byte-class strings (NUL, BOM, invalid UTF-8 ...), static errors in every scope "
+                 "position, inputs at the static limits and embedder-supplied importables go through parser, compiler, Script.Compile and "
+                 "RunContext under all configurations in child processes: a value or an error, never a panic/hang, positions inside the input."),
+        "design_ref": "DESIGN.md 8/C04, 15",
+        "note": ("Trusted: TLC for the enumeration; totality itself needs no model prediction (the oracle is 'returns, with positions inside the input'), "
+                 "so the specification's part is the input space, the munch table and the static-error classes; 20 s deadline per input."),
+        "technique": "TLC-enumerated token-level input space + mutation/byte-class/limit families replayed into every front-end entry point in child processes",
+    },
     "C01": {
         "text": ("TengoSem.tla/TengoValues.tla are an executable TLA+ reference semantics of the documented language (names, lexical "
                  "environments, cells, heap with slice aliasing, operator/builtin tables). TLC evaluates every generated program, exploring "
